@@ -99,26 +99,33 @@ def keySigCall (k : Key) : Option WCall :=
   (newScale k).map fun s =>
     .keySig (u8 ((s.notes.head?.bind SNote.semitone?).getD 0)) (!s.key.minor) ((s.flat + s.sharp) % 256) (s.flat > 0)
 
+/-- the text/lyric/marker calls of `writeWhenUpdated` for a metadata map (empty value = absent) -/
+def textCalls (m : List (String × String)) : List WCall :=
+  (if metaGet m metaTextKey ≠ "" then [WCall.text (metaGet m metaTextKey)] else []) ++
+  (if metaGet m metaLyricKey ≠ "" then [WCall.lyric (metaGet m metaLyricKey)] else []) ++
+  (if metaGet m metaMarkerKey ≠ "" then [WCall.marker (metaGet m metaMarkerKey)] else [])
+
+/-- `w.Meter(uint8(v.Num), uint8(v.Denom))` -/
+def meterCall (r : Rat') : WCall := .meter (r.num % 256) (r.den % 256)
+
 /-- `midiArgs.writeWhenUpdated`: the calls it makes and the cleared flags -/
 def Args.flush (a : Args) : Option (List WCall) × Args :=
   let c1 := if a.bpm.2 then [WCall.tempo a.bpm.1] else []
-  let c2 := if a.meter.2 then [WCall.meter (a.meter.1.num % 256) (a.meter.1.den % 256)] else []
+  let c2 := if a.meter.2 then [meterCall a.meter.1] else []
   let c3? : Option (List WCall) := if a.key.2 then (keySigCall a.key.1).map ([·]) else some []
-  let m := a.mta.1
-  let c4 := if a.mta.2 then
-      (if metaGet m metaTextKey ≠ "" then [WCall.text (metaGet m metaTextKey)] else []) ++
-      (if metaGet m metaLyricKey ≠ "" then [WCall.lyric (metaGet m metaLyricKey)] else []) ++
-      (if metaGet m metaMarkerKey ≠ "" then [WCall.marker (metaGet m metaMarkerKey)] else [])
-    else []
+  let c4 := if a.mta.2 then textCalls a.mta.1 else []
   (c3?.map fun c3 => c1 ++ c2 ++ c3 ++ c4,
    { a with bpm := (a.bpm.1, false), meter := (a.meter.1, false), key := (a.key.1, false), mta := (a.mta.1, false) })
+
+/-- the guard added by the D3 fix: the instance names a key for which there is no scale -/
+def keyHasNoScale (i : Instance) : Bool := match i.key with | some k => (newScale k).isNone | none => false
 
 /-- the loop of `MIDIWriter.Write` -/
 def writeLoop (d : Dict) : Args → List Instance → Except Err (List WCall)
   | _, [] => .ok [.close]
   | a, i :: is =>
     if i.values.isEmpty then .error .invalid
-    else if (match i.key with | some k => (newScale k).isNone | none => false) then .error .notFound
+    else if keyHasNoScale i then .error .notFound
     else
       let a1 := a.update i
       match a1.flush with
